@@ -94,6 +94,18 @@ def one(job):
                 data, _ = third_party_font(rng, force_notdef=opts.get("notdef", False), force_hhea=opts.get("hhea", False))
             except Exception as e:  # noqa
                 return {"kind": kind, "seed": seed, "skip": "gen:" + type(e).__name__}
+        elif kind == "zeroadv":
+            # proportional widths (width = 0) with a zero-advance colour glyph (zero-width viewBox: a combining mark) next to an ordinary one
+            x = rng.choice([186, 120, 260])
+            svgs = ['<svg xmlns="http://www.w3.org/2000/svg" viewBox="0 0 1200 1200"><path fill="#1565C0" d="M300,200 L900,200 L900,1000 L300,1000 Z"/>'
+                    '<path fill="#FFB300" d="M450,350 L750,350 L750,550 L450,550 Z"/></svg>',
+                    f'<svg xmlns="http://www.w3.org/2000/svg" viewBox="0 0 0 1200"><path fill="#C62828" d="M{x},310 L{x + 35},80 L{x + 211},80 L{x + 96},310 Z"/></svg>']
+            case = {"id": f"zeroadv:{seed}", "seed": seed, "fmt": "glyf_colr_1", "svgs": svgs, "codepoints": [[0x42], [0x301]],
+                    "config": {"color_format": "glyf_colr_1", "upem": 1024, "ascender": 950, "descender": -250, "width": 0, "reuse_tolerance": 0.1, "keep_glyph_names": True}}
+            out = fontgen.build(case)
+            if "err" in out:
+                return {"kind": kind, "seed": seed, "skip": out["err"]}
+            data = out["bytes"]
         else:
             fmt = {"colr1": "glyf_colr_1", "colr0": "glyf_colr_0", "picosvg": "picosvg", "cffcolr0": "cff_colr_0", "cff2colr1": "cff2_colr_1"}[kind]
             ov = {"keep_glyph_names": True}
@@ -317,7 +329,7 @@ def suite_copy_svg_model(ctx, res, n):
 
 def suite(ctx, res, n):
     # CFF-flavoured inputs: glyph names are paired with outlines through the CFF charset, which the re-ordering done for the SVG table must carry along
-    kinds = ["colr1", "third-party", "colr0", "cffcolr0", "picosvg", "third-party", "cff2colr1", "colr1"]
+    kinds = ["colr1", "third-party", "colr0", "cffcolr0", "picosvg", "third-party", "cff2colr1", "zeroadv"]
     jobs = []
     for k in range(n):
         kind = kinds[k % len(kinds)]
